@@ -104,6 +104,9 @@ def _getitem_unit(case):
             else:
                 key = q.val
                 q.val.truth_fn = lambda: BoolVal(True)       # a non-empty collection of labels
+                # precondition of this variant: the key is a collection of labels, not an int or a slice (those are the other variants);
+                # any other type test on it stays undetermined
+                q.val.isinstance_fn = lambda names, _p=path: (False if set(names) <= {'int', 'slice', 'bool'} else _p.fresh_bool('isinstance(key)'))
             env = {'self': lat, 'key': key}
             loops = _loops(C)
 
@@ -413,7 +416,7 @@ register(Unit('members.minimal', 'concepts/lattice_members.py', 'Concept.minimal
               linkage=[('concepts.lattice_members.Concept.minimal', None)]))
 register(Unit('members.attributes', 'concepts/lattice_members.py', 'Concept.attributes', _trace_unit('attributes', _minimal_setup('attributes')),
               assumptions=['contract of _minimize (unit contexts.minimize); bitsets members()'],
-              linkage=[('concepts.lattice_members.Concept.attributes', None)]))
+              linkage=[('type(c).attributes', None)]))
 register(Unit('members.infimum_minimal', 'concepts/lattice_members.py', 'Infimum.minimal', _trace_unit('minimal', _minimal_setup('infimum')),
               assumptions=['bitsets members()'], linkage=[('concepts.lattice_members.Infimum.minimal', None)]))
 
